@@ -116,6 +116,13 @@ def cmp_(op, a, b):
         for x, y in ((a, b), (b, a)):
             if isinstance(x, tuple) and x and x[0] in ("fn", "str", "addr", "strobj", "decay") and y == C(0):
                 return C(0 if op == "==" else 1)
+        # two distinct complete objects (locals / temporaries of the path; a local against an object that was passed in) have
+        # different addresses
+        if isinstance(a, tuple) and isinstance(b, tuple) and a[:1] == ("addr",) and b[:1] == ("addr",) and len(a) == 2 and len(b) == 2 and \
+                isinstance(a[1], tuple) and isinstance(b[1], tuple) and a[1] != b[1] and \
+                a[1][:1] in (("var",), ("tmp",), ("pobj",)) and b[1][:1] in (("var",), ("tmp",), ("pobj",)) and \
+                (a[1][:1] != ("pobj",) or b[1][:1] != ("pobj",)):
+            return C(0 if op == "==" else 1)
         # constants to the right
         if is_const(a) or (not is_const(b) and repr(a) > repr(b)):
             a, b = b, a
@@ -400,6 +407,25 @@ class Engine:
     def constexpr_global(self, lv, st=None):
         """value of a member (or element) of a constexpr object with static storage whose initialiser is an aggregate of constants:
         `static constexpr descriptor d{A, B}` ... `d.from`"""
+        if isinstance(lv, tuple) and lv[:1] == ("global",) and len(lv) == 2 and isinstance(lv[1], str):
+            # a constexpr static SCALAR initialised with a function's address or a constant (`static constexpr T_Fn finder = &find;`):
+            # looked up under its full name, so that each instantiation of a class template gets its own member's value
+            if not hasattr(self, "_cx_scalars"):
+                self._cx_scalars = {}
+                for sv in getattr(self.db, "statics", []) or []:
+                    if sv.get("init") is not None and sv.get("cx") and sv.get("n"):
+                        self._cx_scalars.setdefault(sv["n"], sv)
+            sv = self._cx_scalars.get(lv[1])
+            if sv is None or (sv.get("t") or {}).get("k") not in ("ptr", "fnptr", "int", "bool", "enum"):
+                return None
+            a = self._strip_e(sv["init"])
+            if isinstance(a, dict) and a.get("k") == "un" and a.get("op") == "&":
+                a = self._strip_e(a["e"])
+            if isinstance(a, dict) and a.get("k") == "ref" and a.get("dk") == "fn":
+                return ("fn", a["fn"]["n"], a["fn"]["id"])
+            if isinstance(a, dict) and "cv" in a and (sv.get("t") or {}).get("k") in ("int", "bool", "enum"):
+                return C(int(a["cv"]))
+            return None
         if not (isinstance(lv, tuple) and lv[:1] in (("fld",), ("idx",)) and isinstance(lv[1], tuple) and lv[1][:1] == ("global",)):
             return None
         if not hasattr(self, "_cx_statics"):
@@ -1676,7 +1702,7 @@ class Engine:
             for q, v in self.ev(st, fr, e):
                 t = e.get("t") or {}
                 # discarded temporaries with in-repo destructors are destroyed at once
-                if q.status == "run" and self.is_rec(t) and isinstance(v, tuple) and v and v[0] == "tmp" and e["k"] in ("call", "ctor"):
+                if q.status == "run" and self.is_rec(t) and isinstance(v, tuple) and v and v[0] == "tmp" and e["k"] in ("call", "ctor") and not (e.get("lv") or e.get("xv")):
                     outs += self.run_cleanups(q, self._fr(q, fr), [(v, t.get("rn"), t.get("rid"))])
                 else:
                     outs.append(q)
@@ -1880,6 +1906,28 @@ class Engine:
                     s_.mem[("statictable", g)] = tuple(acc)
                     res.append(s_)
                 return res
+            if isinstance(ini, dict) and ini.get("k") in ("call", "ctor", "mcall") and t.get("const") and (t.get("rn") or "").startswith("std::array") and fr.depth < self.max_depth:
+                # a constant table built by a constexpr function (`static constexpr auto table = make_table();`): run the builder once and
+                # remember the elements it produced, so that a read at a symbolic index can be related to them
+                try:
+                    cl_ = st.clone()
+                    built = self.ev(cl_, self._fr(cl_, fr), init)
+                except Inconclusive:
+                    built = []
+                if len(built) == 1 and built[0][0].status == "run":
+                    s_, o = built[0]
+                    elems = {}
+                    for k_, v_ in s_.mem.items():
+                        if isinstance(k_, tuple) and len(k_) == 3 and k_[0] == "idx" and is_const(k_[2]) and (k_[1] == o or (isinstance(k_[1], tuple) and k_[1][:2] == ("fld", o))):
+                            elems[k_[2][1]] = v_
+                    # std::array's aggregate initialisation nests the element list inside the list for the object: { { e0, e1, ... } }
+                    for _ in range(2):
+                        if len(elems) == 1 and isinstance(elems.get(0), tuple) and elems[0][:1] == ("tmp",):
+                            inner = {k_[2][1]: v_ for k_, v_ in s_.mem.items() if isinstance(k_, tuple) and len(k_) == 3 and k_[0] == "idx" and k_[1] == elems[0] and is_const(k_[2])}
+                            if inner:
+                                elems = inner
+                    if elems and sorted(elems) == list(range(len(elems))):
+                        st.mem[("statictable", g)] = tuple(elems[i] for i in range(len(elems)))
             return [st]
         if t.get("ref"):
             outs = []
@@ -2353,6 +2401,7 @@ class Engine:
                 leaves = self.scalar_leaves(ft.get("rid"))
                 if leaves and all(len(pth) == 1 for pth in leaves) and not ({pth[0] for pth in leaves} & own):
                     out.add(fl["n"])
+        out |= set(getattr(self.db, "wrapper_members", ()) or ())
         self._nested_members = out
         return out
 
